@@ -52,6 +52,8 @@ func c07Eval(v []int) (string, string, bool) {
 	switch s.Val(v, "source") {
 	case "other-port":
 		srcIP, srcPort = "127.0.0.77", 30001
+	case "top-port":
+		srcIP, srcPort = "127.0.0.77", 65535
 	case "equals-sent-by":
 		viaHost, viaPort = "127.0.0.9", "5060"
 	}
@@ -102,6 +104,8 @@ func c07Eval(v []int) (string, string, bool) {
 		vias = []string{top, second}
 	case "compact":
 		vias, viaName = []string{top, second}, "v"
+	case "compact-top-only":
+		vias = []string{top, second}
 	}
 	sp := MsgSpec{Method: "OPTIONS", RURI: "sip:bob@svc.example.com", Vias: vias, ViaNm: viaName,
 		From: "<sip:alice@ua.example.net>;tag=f1", To: "<sip:bob@nomatch.example.org>", CallID: "c07", CSeq: "1 OPTIONS"}
@@ -118,6 +122,15 @@ func c07Eval(v []int) (string, string, bool) {
 		return "", "", false // a request from the backend addressed to the service would loop back to it
 	}
 	m := sp.Build()
+	if s.Val(v, "layout") == "compact-top-only" {
+		// the sender writes its own Via compactly, the earlier hop's line below it is spelled out
+		for i := range m.Hdrs {
+			if m.Hdrs[i].Name == "Via" {
+				m.Hdrs[i].Name = "v"
+				break
+			}
+		}
+	}
 	in, _ := m.ViaStack()
 
 	// prelude: the next hop is learned (it sent a request of its own), so that the proxy inserts
@@ -146,12 +159,16 @@ func c07Eval(v []int) (string, string, bool) {
 			w.SendUDP(fmt.Sprintf("%s:%d", srcIP, srcPort), "127.0.0.1:5060", m.Render())
 		}
 	case "tcp-accepted":
-		c, err := w.S.TCPDial(fmt.Sprintf("%s:%d", srcIP, srcPort+1000), "127.0.0.1:5062")
+		tp := srcPort + 1000
+		if tp > 65535 {
+			tp = 65535
+		}
+		c, err := w.S.TCPDial(fmt.Sprintf("%s:%d", srcIP, tp), "127.0.0.1:5062")
 		if err != nil {
 			panic(err)
 		}
 		conn = c
-		truePort = srcPort + 1000
+		truePort = tp
 		w.S.Run()
 		if s.Val(v, "burst") == "other-connection-accepted-meanwhile" {
 			// another client connects to the same listener before the first one sends
@@ -330,10 +347,10 @@ func init() {
 	c07Spec = &EnumSpec{Feats: []Feat{
 		{Name: "no-received", Vals: []string{"absent", "false", "true"}},
 		{Name: "arrival", Vals: []string{"udp", "tcp-accepted", "tcp-dialled-backend"}},
-		{Name: "source", Vals: []string{"plain", "other-port", "equals-sent-by"}},
+		{Name: "source", Vals: []string{"plain", "other-port", "equals-sent-by", "top-port"}},
 		{Name: "rport", Vals: []string{"absent", "valueless", "spoofed"}},
 		{Name: "received", Vals: []string{"absent", "spoofed"}},
-		{Name: "layout", Vals: []string{"single", "two-entries", "two-lines", "compact"}, Quick: 2},
+		{Name: "layout", Vals: []string{"single", "two-entries", "compact-top-only", "two-lines", "compact"}, Quick: 3},
 		{Name: "path", Vals: []string{"backend", "route", "static"}},
 		{Name: "entries", Vals: []string{"one", "hop-behind-opposite-entry"}},
 		{Name: "manypars", Vals: []string{"no", "20-before"}},
@@ -364,7 +381,7 @@ func init() {
 		return true
 	}
 	addCheck(&Check{ID: "C07", Level: "exploration",
-		Rule:   "complete product through the REAL main() with a YAML file (thorough: also through startProxy): no-received {absent,false,true} x arrival {UDP, accepted TCP connection, TCP connection the proxy dialled to a backend} x true source {plain, other address and high port, equal to the Via sent-by} x rport {absent, valueless, spoofed} x received {absent, spoofed} x Via layout x relaying path x {alone, immediately followed by a datagram from another source, another TCP connection accepted before the request is sent} x order of the sender's Via parameters (rport / received before or after branch) x {one listens entry, a second entry with the OPPOSITE received setting through which the next hop was learned} x {few Via parameters, 20 parameters ahead of rport / received}; after the request, the next hop answers and the response is followed to the true source; non-trivial = request relayed",
+		Rule:   "complete product through the REAL main() with a YAML file (thorough: also through startProxy): no-received {absent,false,true} x arrival {UDP, accepted TCP connection, TCP connection the proxy dialled to a backend} x true source {plain, other address and high port, equal to the Via sent-by, source port 65535} x rport {absent, valueless, spoofed} x received {absent, spoofed} x Via layout x relaying path x {alone, immediately followed by a datagram from another source, another TCP connection accepted before the request is sent} x order of the sender's Via parameters (rport / received before or after branch) x {one listens entry, a second entry with the OPPOSITE received setting through which the next hop was learned} x {few Via parameters, 20 parameters ahead of rport / received}; after the request, the next hop answers and the response is followed to the true source; non-trivial = request relayed",
 		Assume: []string{"position of a newly added Via parameter is not prescribed (parameters of the sender's entry compared as a multiset)"},
 		Run:    func(c *Ctx) { c07Spec.Run(c); cleanupYamlFiles() },
 		Replay: func(c *Ctx, raw json.RawMessage) string { defer cleanupYamlFiles(); return c07Spec.Replay(raw) },
